@@ -1,6 +1,7 @@
 import CanopenModel.Bytes
 import CanopenModel.P402
 import CanopenModel.P402Mode
+import CanopenModel.P402Cfg
 namespace Canopen.Driver.C19
 open Canopen Canopen.P402 Canopen.Spec.Drive402 Canopen.Gen.P402Tables
 
@@ -105,7 +106,7 @@ def parseTransport (s : String) : Option Bool :=
 
 /-- ops: `sw n transport`, `goto start rst target transport auto12 d extra F S schedule`,
     `mode index mask transport delay M`, `mhist transport mask steps` -/
-def step (args : List String) : String :=
+def stepCore (args : List String) : String :=
   match args with
   | ["sw", n, t] => match parseNat n, parseTransport t with
     | some n, some _ => showName (getState n)
@@ -151,5 +152,86 @@ def step (args : List String) : String :=
     | some pdo, some mask, some steps => mhist pdo mask steps
     | _, _, _ => "bad-op"
   | _ => "bad-op"
+
+/-! ### configuration history of the PDO transport: transport token `p<letters>` -/
+
+def parseCfgLetter (c : Char) : Option CfgOp :=
+  if c = 'a' then some .setupLocal else if c = 'b' then some .setupUpload else if c = 'm' then some .machine
+  else if c = 't' then some .readT else if c = 'r' then some .readR else if c = 'q' then some .readAll
+  else if c = 'w' then some (.remap .l1) else if c = 'y' then some (.remap .l2)
+  else if c = 'x' then some (.remap .l3) else if c = 'z' then some (.remap .l4) else none
+
+/-- `p<letters>` with at least one letter -/
+def parseCfgTransport (s : String) : Option (List CfgOp) :=
+  match s.toList with
+  | 'p' :: c :: rest => (c :: rest).mapM parseCfgLetter
+  | _ => none
+
+/-- items 10..15 of a `hist` history: `setup_pdos(False)`, `setup_pdos(True)`, `setup_402_state_machine()`,
+    `tpdo.read()`, `rpdo.read()`, `pdo.read()` between two assignments -/
+def histCfgItem (i : Nat) : Option CfgOp :=
+  if i = 10 then some .setupLocal else if i = 11 then some .setupUpload else if i = 12 then some .machine
+  else if i = 13 then some .readT else if i = 14 then some .readR else if i = 15 then some .readAll else none
+
+def swField (n : Nat) (i : Nat) : Nat := if i = SW_INDEX then n else 0
+
+/-- position of the transport token per op -/
+def transportPos (op : String) : Option Nat :=
+  if op = "goto" then some 4 else if op = "hist" ∨ op = "mode" ∨ op = "modef" then some 3
+  else if op = "mhist" then some 1 else none
+
+/-- the configuration steps a `hist` history contains (the model of the assignments skips them) -/
+def histSplit (items : List Nat) : List Nat × List CfgOp :=
+  (items.filter fun i => (histCfgItem i).isNone, items.filterMap histCfgItem)
+
+/-- ops as `stepCore`, the transport being `s`, `d`, `p` or `p<configuration history>`; plus
+    `swl n1 n2 k p<history>` (statusword in both TPDOs: the other TPDO shows n1, then TPDO k shows n2).
+    With a history the statusword is decoded from the model's cache after the drive's transmission cycle; the
+    transition and mode ops run the PDO-transport model when the history leaves the PDO transport served
+    (`pdoServed`), else the answer is `unmodelled`. -/
+def step (args : List String) : String :=
+  match args with
+  | ["sw", n, t] =>
+    (match parseNat n, parseCfgTransport t with
+     | some n, some ops =>
+       let c := runCfg PdoCfg.start ops
+       showName (getState (statuswordOf (receiveCycle c (swField n)) n))
+     | _, _ => stepCore args)
+  | ["swl", n1, n2, k, t] =>
+    (match parseNat n1, parseNat n2, parseNat k, parseCfgTransport t with
+     | some n1, some n2, some k, some ops =>
+       let c := runCfg PdoCfg.start ops
+       if (k = 1 ∨ k = 2) ∧ c.drive = Layout.l2.drive then
+         let nd := recvFrame (recvFrame c.node (3 - k) (swField n1)) k (swField n2)
+         showName (getState (statuswordOf nd n2))
+       else "bad-op"
+     | _, _, _, _ => "bad-op")
+  | op :: _ =>
+    (match transportPos op with
+     | none => stepCore args
+     | some pos =>
+       (match args[pos]? with
+        | none => stepCore args
+        | some t =>
+          (match parseCfgTransport t with
+           | none =>
+             if op = "hist" then
+               -- configuration items between assignments are no-ops for transports without PDO configuration
+               (match args[8]?.bind parseNatList with
+                | some items => stepCore (args.set 8 (showNatList (histSplit items).1))
+                | none => stepCore args)
+             else stepCore args
+           | some ops =>
+             let more := if op = "hist" then (match args[8]?.bind parseNatList with
+                                               | some items => (histSplit items).2 | none => []) else []
+             let args' := if op = "hist" then (match args[8]?.bind parseNatList with
+                                               | some items => args.set 8 (showNatList (histSplit items).1)
+                                               | none => args) else args
+             -- the history of the transport token, then (hist) the configuration steps in between: none of the
+             -- latter re-maps, so `pdoServed` after all of them is `pdoServed` at every assignment
+             if pdoServed (runCfg PdoCfg.start ops) && pdoServed (runCfg PdoCfg.start (ops ++ more)) then
+               stepCore (args'.set pos "p")
+             else "unmodelled")))
+  | [] => "bad-op"
 
 end Canopen.Driver.C19
